@@ -102,3 +102,11 @@ Example C03_example :
   let A := mk_default [1; 1] 1 false in
   wf_alg A = true /\ op Zops A [(1, 1); (2, 2)] [(1, 3); (3, 1)] = [(3, -6)].
 Proof. vm_compute. split; reflexivity. Qed.
+
+(* ---- the tie to today's source: codegen_product as regenerated from /repo/kingdon/codegen.py
+   (Gen/Kernels.v) IS the model function the theorems above speak about, for every coefficient type ---- *)
+From KV Require Import Gen.Kernels Bridge.Kernels.
+Theorem C03_product_kernel_is_todays_source : forall (R : Type) (O : ops R) sfun filt kout (x y : mv R),
+  gen_codegen_product O sfun filt kout x y = codegen_product O sfun filt kout x y.
+Proof. exact @br_codegen_product. Qed.
+Print Assumptions C03_product_kernel_is_todays_source.
